@@ -130,6 +130,8 @@ enum Op {
     NoProgram,
     Steps(usize),
     Build,
+    /// the builder value reached so far is overwritten by `Default::default()` (`let mut b = ...; b = Default::default();`)
+    ResetDefault,
 }
 
 #[derive(Clone, Copy, PartialEq, Debug)]
@@ -199,6 +201,15 @@ fn classify(n_stacks: usize, ops: &[Op]) -> (Class, &'static str) {
                 }
                 steps = true;
             }
+            Op::ResetDefault => {
+                // a builder in a state that was reached through calls cannot be conjured from nothing: Default may exist
+                // for the initial state only (otherwise a builder that was given nothing could be built)
+                return if exec == Phase::N && !steps && st.iter().all(|p| *p == Phase::N) {
+                    (Class::Unspecified, "Default::default() for the initial builder state")
+                } else {
+                    (Class::MustNot, "a builder state obtained from Default::default() instead of the calls that lead to it")
+                };
+            }
             Op::Build => {
                 if exec != Phase::D || !steps {
                     return (Class::MustNot, "build without sizes / program decision / step limit");
@@ -211,6 +222,13 @@ fn classify(n_stacks: usize, ops: &[Op]) -> (Class, &'static str) {
 }
 
 fn chain_source(s: &StructDef, ops: &[Op], unwrap: &str) -> String {
+    if let Some(k) = ops.iter().position(|o| matches!(o, Op::ResetDefault)) {
+        // statement form: the prefix builds a value, Default::default() is assigned over it, the suffix continues
+        let prefix = chain_source(s, &ops[..k], unwrap);
+        let suffix = chain_source(s, &ops[k + 1..], unwrap);
+        let suffix = suffix.strip_prefix(&format!("{}::builder()", s.name)).unwrap_or("").to_string();
+        return format!("{{ let mut b = {prefix}; b = ::core::default::Default::default(); b{suffix} }}");
+    }
     let mut o = format!("{}::builder()", s.name);
     let mut counter = 0usize;
     for op in ops {
@@ -247,6 +265,7 @@ fn chain_source(s: &StructDef, ops: &[Op], unwrap: &str) -> String {
                 let _ = write!(o, ".with_instruction_step_limit({n})");
             }
             Op::Build => o.push_str(".build()"),
+            Op::ResetDefault => {}
         }
     }
     o
@@ -334,6 +353,29 @@ fn gen_probe_chain(rng: &mut Rng, s: &StructDef) -> Vec<Op> {
     }
     if rng.chance(1, 8) {
         return gen_resize_after_program(rng, s);
+    }
+    if rng.chance(1, 10) {
+        // a state reached by calls, replaced by Default::default(), then (usually) finished and built
+        let n = s.stacks.len();
+        let mut ops = vec![Op::MaxAll(2 + rng.below(6))];
+        let stage = rng.below(4);
+        if stage >= 1 {
+            ops.push(if rng.chance(1, 2) { Op::Program(rng.below(3)) } else { Op::NoProgram });
+        }
+        if stage >= 2 {
+            ops.push(Op::Steps(rng.below(30)));
+        }
+        if stage >= 3 {
+            ops.push(Op::Values(rng.below(n), rng.below(2)));
+        }
+        ops.push(Op::ResetDefault);
+        if stage < 2 && rng.chance(1, 2) {
+            ops.push(Op::Steps(rng.below(30)));
+        }
+        if rng.chance(2, 3) {
+            ops.push(Op::Build);
+        }
+        return ops;
     }
     let n = s.stacks.len();
     let mut ops = vec![];
@@ -512,7 +554,7 @@ fn predict(s: &StructDef, ops: &[Op]) -> Expect {
                 }
                 e.program_len = *cnt;
             }
-            Op::NoProgram | Op::Build => {}
+            Op::NoProgram | Op::Build | Op::ResetDefault => {}
             Op::Steps(m) => e.steps = *m,
         }
     }
